@@ -89,6 +89,16 @@ class _Sys:
             self.cell_conn = [0, 0, 1, 1]
             self.cell_neuron = [0, 1, 0, 1]
             self.insz = [2, 3]
+        elif self.layout == "recurrent":
+            self.conns = [conn(0, 2, n), conn(1, n, n), conn(2, n, n)]       # feedfwd, lateral, feedback
+            self.neurons = [neuron(0, n), neuron(1, n)]
+            self.layers = [nn_.RecurrentSerial(self.conns[0], self.conns[1], self.conns[2], self.neurons[0], self.neurons[1], trainable_feedback=True)]
+            L = self.layers[0]
+            self.cells = [L.feedfwd_cell, L.lateral_cell, L.feedback_cell]
+            self.cell_layer = [0, 0, 0]
+            self.cell_conn = [0, 1, 2]
+            self.cell_neuron = [0, 1, 0]
+            self.insz = [2]
         else:
             self.conns = [conn(0, 2, n), conn(1, 2, n)]
             self.neurons = [neuron(0, n), neuron(1, n)]
@@ -171,6 +181,8 @@ class _Sys:
             self.counts[k] = 0
         if self.layout == "biclique":
             self.layers[0]({"c0": (xs[0],), "c1": (xs[1],)})
+        elif self.layout == "recurrent":
+            self.layers[0](xs[0])
         else:
             for L, x in zip(self.layers, xs):
                 L(x)
@@ -209,8 +221,8 @@ class LifecycleWorld(World):
 
     def generate(self, seed, prop, tier):
         rc, ro = stream(seed, "config"), stream(seed, "ops")
-        layout = rc.choice(["biclique", "biclique", "two_serial"])
-        ncell = 4 if layout == "biclique" else 2
+        layout = rc.choice(["biclique", "biclique", "two_serial", "recurrent"])
+        ncell = {"biclique": 4, "two_serial": 2, "recurrent": 3}[layout]
         t0, t1 = rc.choice(TKINDS), rc.choice(TKINDS)
         cfg = {"layout": layout, "dt": rc.choice(DTS), "B": rc.choice([1, 2]), "wseed": rc.randrange(1 << 30), "width": rc.choice([2, 3]),
                "t0": t0, "t1": t1, "v0": rc.choice([0, 1]), "v1": rc.choice([0, 1]), "delays": ("DelayAdjustedSTDP" in (t0, t1)) or rc.random() < 0.2}
